@@ -19,7 +19,40 @@ const STUB: [&str; 4] = [
 ];
 
 pub fn all() -> Vec<Property> {
-    vec![c01(), c07()]
+    vec![c01(), c07(), c08()]
+}
+
+fn c08() -> Property {
+    Property {
+        id: "C08",
+        level: "exploration",
+        variants: vec![
+            Variant {
+                name: "client-sender-vs-scripted-receiver",
+                weight: 3,
+                make: || Box::pin(scen::c08::run_client()),
+                max_steps: 3_000_000,
+                note: "real client Sender <-> scripted receiver",
+            },
+            Variant {
+                name: "listener-sender-vs-scripted-receiver",
+                weight: 1,
+                make: || Box::pin(scen::c08::run_listener()),
+                max_steps: 3_000_000,
+                note: "real listener-side Sender (LinkAcceptor) <-> scripted client receiver",
+            },
+        ],
+        quick_runs: 10_000,
+        thorough_runs: 500_000,
+        rule: "one run = seeded initial-delivery-count (incl. values near 2^31 and 2^32), 2-17 sends (single- and multi-frame at link level, settled or unsettled, batchable), a seeded flow history from the peer (grants, reductions to zero, drain on/off, echo, unset delivery-count), a seeded schedule including schedule point H2 between the failed credit check and the start of the wait, and a final grant after which the peer stays silent; every run is non-trivial; distinct = distinct event-log hash",
+        assumptions: vec![
+            "schedule point H2 stands for 'another thread ran here' on a multi-thread runtime; no other intra-poll preemption is explored",
+            "in-flight rule for credit as for windows (quiescence floor)",
+        ],
+        real_components: REAL.to_vec(),
+        stub_components: STUB.to_vec(),
+        expected_probes: vec!["credit-granted", "credit-reduced-to-zero", "drain-consumed", "quiescence-floor", "flow-with-unset-delivery-count", "h2-yielded"],
+    }
 }
 
 fn c07() -> Property {
